@@ -216,3 +216,18 @@ Example first_ball_hypotheses_satisfiable :
   /\ (forall x, In x (shots ex_cfg) -> ~ In (s_var x) (load_keys ex_cfg)).
 Proof. exact ex_first_ball_hyp. Qed.
 Print Assumptions first_ball_hypotheses_satisfiable.
+
+(* adding a player posts exactly the announcement of the new player's variables (one event per
+   int/str/float variable, in the order of the variables), or nothing when the request is refused *)
+Theorem added_player_events :
+  forall c s, ingame s = true ->
+    (players (fst (step c s Start)) = players s /\ snd (step c s Start) = [])
+    \/ (players (fst (step c s Start)) = players s ++ [fresh_player c (length (players s))]
+        /\ snd (step c s Start) = announce (length (players s)) (fresh_player c (length (players s)))).
+Proof. exact added_player_events_l. Qed.
+Print Assumptions added_player_events.
+
+Theorem announce_one_per_variable :
+  forall i st, map ev_name (announce i st) = map fst (filter (fun kv => simple (snd kv)) st).
+Proof. exact announce_names. Qed.
+Print Assumptions announce_one_per_variable.
